@@ -75,6 +75,14 @@ def check_roundtrip(e):
   e2 = pkt.ethernet(raw=p)
   if not e2.parsed:
     return "frame does not parse"
+  # every layer that was built parses again (an unparsed layer re-serialises its raw bytes: equal bytes alone prove nothing)
+  q, q2 = e, e2
+  while isinstance(q, pkt.packet_base):
+    if not isinstance(q2, pkt.packet_base) or type(q2) is not type(q):
+      return "layer %s was built, the frame parses to %s there" % (type(q).__name__, type(q2).__name__)
+    if not q2.parsed:
+      return "layer %s of the built frame does not parse" % type(q).__name__
+    q, q2 = q.next, q2.next
   p2 = e2.pack()
   if p2 != p:
     return "parse + pack gives different bytes (%d vs %d)" % (len(p2), len(p))
@@ -164,6 +172,10 @@ def other_protocols_round_trip(tier, seed):
       l.tlvs.append(pkt.ttl(ttl=n * 1500))
       for j in range(n % 4):
         l.tlvs.append(pkt.system_description(payload=b"d" * (j * 50)))
+      # the 9-bit TLV length: information strings of 255..511 bytes (all 9 bits used)
+      big = [0, 255, 256, 257, 300, 383, 384, 510, 511][n % 9]
+      if big:
+        l.tlvs.append(pkt.system_name(payload=bytes((i * 7 + n) & 255 for i in range(big))))
       l.tlvs.append(pkt.end_tlv())
       return check_roundtrip(eth(0x88cc, l))
     yield ("lldp %d" % n, lldp_case)
@@ -188,9 +200,9 @@ def other_protocols_round_trip(tier, seed):
     yield ("igmp %d" % n, igmp_case)
     def rip_case(n=n):
       r = pkt.rip()
-      r.cmd = 1 + n % 2
+      r.command = 1 + n % 2
       r.version = 2
-      for j in range(n % 4):
+      for j in range(1 + n % 4):      # RFC 2453: a RIP message carries 1..25 entries (the parser refuses 0)
         en = pkt.RIPEntry()
         en.ip = IPAddr(0x0a000000 + (j << 16))
         en.netmask = IPAddr(0xffff0000)
